@@ -223,11 +223,17 @@ func c12(c *ctx) {
 	for _, sc := range []struct {
 		name string
 		N, k int // k = 0: never answered
-	}{{"accept", 2, 1}, {"accept", 2, 2}, {"reject", 3, 1}, {"reject", 2, 2}, {"no-cause", 3, 1}, {"never", 2, 0}, {"accept", 1, 2}} {
+	}{{"accept", 2, 1}, {"accept", 2, 2}, {"reject", 3, 1}, {"reject", 2, 2}, {"no-cause", 3, 1}, {"never", 2, 0}, {"accept", 1, 2},
+		{"never-max-retries", 255, 0}} { // the largest value the configuration can carry (a uint8)
 		if !c.thorough() && sc.name == "accept" && sc.N == 1 {
 			continue
 		}
 		rt := 80 * time.Millisecond
+		quiet := 3*rt + rt/2
+		if sc.N > 100 {
+			rt = 4 * time.Millisecond // 256 transmissions in about a second; spacing is not judged at this resolution
+			quiet = 400 * time.Millisecond
+		}
 		w, err := newWorld(c, sysh.Opts{RespTimeout: rt.String(), MaxRetries: sc.N, ReadTimeout: 600, Peers: []string{"127.0.12.1"}})
 		if err != nil {
 			panic(err)
@@ -258,7 +264,7 @@ func c12(c *ctx) {
 					ie.NewRecoveryTimeStamp(time.Unix(1700000000, 0)))}
 			}, func(tx []txRec) bool {
 				// over once the series has had time to finish: (N+1) transmissions, or a quiet period of 3.5 x resp_timeout after the last one
-				return len(tx) > 0 && (len(tx) > sc.N+1 || time.Since(start)-tx[len(tx)-1].at > 3*rt+rt/2)
+				return len(tx) > 0 && (len(tx) > sc.N+1 || time.Since(start)-tx[len(tx)-1].at > quiet)
 			})
 		}()
 		if !w.start() {
@@ -271,7 +277,7 @@ func c12(c *ctx) {
 		if len(tx) > 0 {
 			_, served = p0.Exchange(sysh.Marshal(message.NewHeartbeatRequest(p0.NextSeq(), ie.NewRecoveryTimeStamp(time.Unix(1700000000, 0)), nil)), 400*time.Millisecond)
 		}
-		w.emit("assocseries/"+sc.name, true, map[string]interface{}{"k": "assocseries", "kind": sc.name, "N": sc.N, "rt_us": rt.Microseconds(), "answer": sc.k,
+		w.emit("assocseries/"+sc.name, true, map[string]interface{}{"k": "assocseries", "kind": sc.name, "N": sc.N, "rt_us": rt.Microseconds(), "answer": sc.k, "nogaps": sc.N > 100,
 			"obs": map[string]interface{}{"alive": !w.s.Exited(), "tx": txJSON(tx), "served": served}})
 		p0.Close()
 		w.close()
